@@ -7,6 +7,7 @@
 extern crate libz_sys;
 
 mod api;
+mod edef;
 mod einf;
 mod gen;
 mod guard;
@@ -51,6 +52,12 @@ fn arg(args: &[String], name: &str) -> Option<String> {
 }
 
 fn main() {
+    unsafe {
+        // keep large Vec allocations on the heap (no mmap/munmap churn per case)
+        libc::mallopt(libc::M_MMAP_THRESHOLD, 32 << 20);
+        libc::mallopt(libc::M_TRIM_THRESHOLD, 512 << 20);
+        libc::mallopt(libc::M_TOP_PAD, 64 << 20);
+    }
     let args: Vec<String> = std::env::args().collect();
     if args.len() < 2 {
         eprintln!("usage: vcheck run|replay|list ...");
